@@ -767,6 +767,13 @@ example : ∀ st : SemNewSt, st.mode = .open → st.pc = .excl → Call.quiet (.
   intro st hm hp
   simp [Call.quiet, SemNewSt.mayUnlink, hm, hp]
 
+/-- `Bracketed` / `holders` are not vacuous: lock by thread 1, unlock by thread 1, lock by thread 2 -/
+example :
+    Bracketed 0 [⟨2, 2, .semWait 0, .ok 0⟩, ⟨1, 1, .semPost 0, .ok 0⟩, ⟨1, 1, .semWait 0, .ok 0⟩] ∧
+    holders 0 [⟨2, 2, .semWait 0, .ok 0⟩, ⟨1, 1, .semPost 0, .ok 0⟩, ⟨1, 1, .semWait 0, .ok 0⟩] = [2] ∧
+    holders 0 [⟨1, 1, .semWait 0, .ok 0⟩] = [1] := by
+  simp [Bracketed, holders, isAcq, isRel]
+
 /-! ### a lock semaphore re-created by a follower after a creator crash (finding) -/
 
 /-
